@@ -281,6 +281,8 @@ def main():
                      'kind_free_text': 'extra check beyond the list: Pyroscope SelectSeries / SelectMergeProfile / ProfileTypes / label endpoints / stats (python3 tools/check.py X05 quick|thorough); part of the thorough tier of C16'},
                     {'name': 'tlc-extra-X04', 'path': '/verif/spec/ingest/BulkIngest.tla', 'serves_properties': ['C03', 'C04', 'C05'],
                      'kind_free_text': 'extra check beyond the list: Elasticsearch bulk/doc, Cloudflare and Datadog-metrics ingest (python3 tools/check.py X04 quick|thorough); part of the thorough tier of C03'},
+                    {'name': 'tlc-extra-X08', 'path': '/verif/spec/query/PromDown.tla', 'serves_properties': ['C13', 'C17'],
+                     'kind_free_text': 'extra check beyond the list: PromQL range queries served from the 15 s downsample table metrics_15s (step and range multiples of 15 s: the path C17 excludes) - definition over the raw samples vs the transcribed mechanism (MV bucket rows, DownsampleHintsPlanner re-timing, count expansion, engine windows) with named quirks, every case replayed through the real /api/v1/query_range (python3 tools/check.py X08 quick|thorough)'},
                     {'name': 'tlc-extra-X03', 'path': '/verif/spec/ingest/WriterLifecycle.tla', 'serves_properties': ['C01', 'C02'],
                      'kind_free_text': 'extra check beyond the list: worker selection, sync/async pools, registry routing, Init/Run/Stop, watchdog (python3 tools/check.py X03 quick|thorough)'}],
         'checks': checks,
